@@ -63,6 +63,13 @@ UNMIRRORED = ("intersection-strict-objects", "intersection-strict-nested")
 def make_key(known_keys):
     def key(op, impl, M, S):
         kind = C.op_body(op).split(" ")[1]
+        if kind in ("udoc", "uinst"):
+            # schema types without a model: the implementation's own observation, judged by the independent validator
+            import re
+            m = re.search(r"class=(\S+)", C.op_comment(op))
+            cls = m.group(1) if m else "unknown"
+            if kind == "udoc": return "doc:unmodelled:" + cls
+            return (verdict_ok(impl) or "harness") + ":unmodelled:" + cls
         if kind == "refs":
             # the statement on the implementation alone: every $ref names a $defs entry; otherwise model ≠ implementation
             return "refs:unresolved" if (S or "").startswith("refs-must-resolve") else "refs:model-differs"
@@ -178,10 +185,23 @@ def run(res):
     DEFAULT = "io=-,unrep=-,reused=-,cycles=-,target=-,meta=global"
     first_doc = {}
     nhist = 0
+    nunmod = 0
     for o, im, m in zip(ops, impl, model):
         mm, _, why = m.partition("\t")
         body = C.op_body(o)
         kind = body.split(" ")[1] if " " in body else ""
+        if kind in ("udoc", "uinst"):
+            # no model stands behind these ops (the driver answers `unmodelled`): model := the observation itself,
+            # spec := the statement evaluated on the observation
+            if kind == "udoc":
+                spec = im if im in ("1 document", "error") else "document-must-be-wellformed"
+            else:
+                bad = verdict_ok(im)
+                spec = im if bad == "" else "property-violated:%s" % bad
+            if mm != "unmodelled":
+                spec = "driver-must-answer-unmodelled"
+            ops2.append(o); model2.append(im + "\t" + spec); nunmod += 1
+            continue
         if kind == "refs":
             # "defs=a,b;refs=x,y" (or error / panic): judged on the implementation alone — every reference resolves
             spec = im
@@ -236,6 +256,7 @@ def run(res):
         if c[2] == "text": res.notes.append("source text of %s changed (structure unchanged); transcribed by %s" % (c[0], c[1]))
     res.coverage["parse_panics_counted_as_reject"] = stats.get("parse_panics", 0)
     res.coverage["conversions"] = stats.get("conversions", 0)
+    res.coverage["unmodelled_type_cases_judged_by_the_independent_validator_alone"] = nunmod
     res.coverage["later_conversions_checked_against_first_document"] = nhist
     if res.tier == "thorough":
         metaschema_check(res)
